@@ -24,7 +24,9 @@ SPEC = {
                    "boundaries) for one to three PROGRAMS (build info set per file) so that local/ lists a week's files in "
                    "forward, reversed or random order relative to their begin days, two thirds of the multi-file scenarios "
                    "inside one week, opt-in date placed between the begin days, mode file with the opt-in date at begin-1d / begin / begin+1d / end-1d / end / end+1d / far, "
-                   "written raw or by the real SetModeAsOf, modes on/local/off/other/absent/directory, start instant at "
+                   "written raw or by the real SetModeAsOf, modes on/local/off/other/absent/directory, a fifth of the raw files "
+                   "with a white-space separator other than one space after the word (TAB, LF, VT, FF, CR, CRLF, NBSP, U+0085, "
+                   "U+2003, U+2028, U+3000, U+1680) followed by a date / comment / nothing, start instant at "
                    "end, end+-1ns, end+-1s, age 21d exactly, 21d+1ns, 21d+-1s, 28d, 293+ years, before end; X chosen by "
                    "replacing crypto/rand.Reader, sample rate 0, X, X+-ulp, 1, negative, tiny, random; left-over reports "
                    "(dated today+-1, asof+-1, the week, next year, no date, impossible date, local. prefix, short name); "
